@@ -110,6 +110,58 @@ Proof. unfold mem, inkeys. induction l; simpl; intros; auto. rewrite IHl. auto. 
 Lemma find_key_some : forall {A} (K : A -> key) l k e, find (fun e => keqb k (K e)) l = Some e -> k = K e /\ In e l.
 Proof. intros. apply find_some in H. destruct H. apply keqb_eq in H0. auto. Qed.
 
+(* ---------- lists ---------- *)
+Lemma find_app : forall {A} (p : A -> bool) l1 l2,
+  find p (l1 ++ l2) = match find p l1 with Some x => Some x | None => find p l2 end.
+Proof. induction l1; simpl; intros; auto. destruct (p a); auto. Qed.
+
+Lemma foldd_app : forall {A M} (f : A -> M -> M) l1 l2 (m : M), foldd f (l1 ++ l2) m = foldd f l1 (foldd f l2 m).
+Proof. intros. unfold foldd. apply fold_right_app. Qed.
+
+Lemma foldd_map : forall {A B M} (g : A -> B) (f : B -> M -> M) l (m : M),
+  foldd f (map g l) m = foldd (fun a m => f (g a) m) l m.
+Proof. induction l; simpl; intros; auto. rewrite IHl. auto. Qed.
+
+Lemma filter_nil : forall {A} (f : A -> bool) l, (forall x, In x l -> f x = false) -> filter f l = [].
+Proof. induction l; simpl; intros; auto. rewrite H by auto. auto. Qed.
+
+(* ---------- membership in a sorted map, non-empty storage ---------- *)
+Lemma get_in : forall {V} (m : smap V) k v, get m k = Some v -> In (k, v) m.
+Proof.
+  induction m as [|[k0 v0] r]; simpl; intros; [discriminate|].
+  destruct (keqb k k0) eqn:E.
+  - apply keqb_eq in E. inversion H; subst. auto.
+  - right. auto.
+Qed.
+
+Lemma in_get : forall {V} (m : smap V) k v, sorted m -> In (k, v) m -> get m k = Some v.
+Proof.
+  induction m as [|[k0 v0] r]; simpl; intros; [contradiction|].
+  destruct H as [L S]. destruct H0.
+  - inversion H; subst. rewrite keqb_refl. auto.
+  - destruct (keqb k k0) eqn:E; auto.
+    apply keqb_eq in E. subst. specialize (IHr k0 v S H).
+    rewrite (lt_all_get _ _ L) in IHr. discriminate.
+Qed.
+
+Lemma has_store_iff : forall (m : smap N) a, sorted m ->
+  (has_store m a = true <-> exists k v, get m k = Some v /\ has_prefix [a] k = true).
+Proof.
+  unfold has_store. intros. rewrite existsb_exists. split.
+  - intros [[k v] [Hin Hp]]. exists k, v. split; auto. apply in_get; auto.
+  - intros [k [v [G Hp]]]. exists (k, v). split; auto. apply get_in; auto.
+Qed.
+
+Lemma has_prefix_2 : forall a x sl, has_prefix [a] [x; sl] = (a =? x).
+Proof. intros. unfold has_prefix. simpl. destruct (a =? x); auto. Qed.
+
+Lemma is_sys_in : forall a, is_sys a = true <-> In a sys_addrs.
+Proof.
+  unfold is_sys, mem. intros. rewrite existsb_exists. split.
+  - intros [y [Hin E]]. apply N.eqb_eq in E. subst. auto.
+  - intros. exists a. split; auto. apply N.eqb_refl.
+Qed.
+
 (* ---------- head buckets after Update ---------- *)
 Lemma get_upd_class : forall d m k,
   get (upd_class d m) k =
@@ -176,7 +228,9 @@ Record Inv (s : st) : Prop := mkInv {
   i_b1 : below (s_lstore s) (s_next s); i_b2 : below (s_lnonce s) (s_next s); i_b3 : below (s_lclass s) (s_next s);
   i_nolog : forall a, get (s_class s) [a] = None -> nolog (s_lstore s) (s_lnonce s) (s_lclass s) a;
   i_dh : vals_below (s_dh s) (s_next s);
-  i_decl : vals_below (s_decl s) (s_next s)
+  i_decl : vals_below (s_decl s) (s_next s);
+  (* a system contract that exists has a non-empty storage *)
+  i_sys : forall a, is_sys a = true -> get (s_class s) [a] <> None -> has_store (s_store s) a = true
 }.
 
 Lemma Inv_empty : Inv st_empty.
@@ -204,16 +258,74 @@ Proof.
   apply existsb_exists. exists [a]. split; [apply (in_map (fun h => [h])); auto | apply keqb_refl].
 Qed.
 
-Lemma valid_diffb_Valid : forall s d, valid_diffb s d = true -> Valid s d.
+(* the system-contract part: what [valid_diffb] says about them, and the guard *)
+Record VS (s : st) (d : diff) : Prop := mkVS {
+  vs_valid : Valid s (with_sys (s_class s) d);
+  vs_dep : forall e, In e (d_deploy d) -> is_sys (fst e) = false;
+  vs_rep : forall e, In e (d_replace d) -> is_sys (fst e) = false;
+  vs_non : forall e, In e (d_nonce d) -> is_sys (fst e) = false;
+  vs_guard : forall a, is_sys a = true -> touched d a = true ->
+             has_store (upd_store (d_store d) (s_store s)) a = true
+}.
+
+Lemma present_iff : forall (m : smap N) a, present m a = true <-> get m [a] <> None.
+Proof. unfold present. intros. destruct (get m [a]); split; intros; try discriminate; auto; try congruence. Qed.
+
+Lemma present_false : forall (m : smap N) a, present m a = false <-> get m [a] = None.
+Proof. unfold present. intros. destruct (get m [a]); split; intros; try discriminate; auto. Qed.
+
+Lemma inkeys_app : forall {B} (l1 l2 : list (N * B)) a, inkeys (l1 ++ l2) a = inkeys l1 a || inkeys l2 a.
+Proof. unfold inkeys. intros. apply existsb_app. Qed.
+
+Lemma in_sys_missing : forall cls d a, In a (sys_missing cls d) <-> (is_sys a = true /\ touched d a = true /\ get cls [a] = None).
 Proof.
-  unfold valid_diffb. intros. repeat (apply andb_true_iff in H; destruct H as [H ?]).
+  unfold sys_missing. intros. rewrite filter_In, andb_true_iff, negb_true_iff, present_false, is_sys_in. tauto.
+Qed.
+
+Lemma inkeys_sys_new : forall cls d a, inkeys (sys_new cls d) a = true <-> In a (sys_missing cls d).
+Proof.
+  unfold inkeys, sys_new. intros. rewrite existsb_exists. split.
+  - intros [e [Hin E]]. apply in_map_iff in Hin. destruct Hin as [x [Hx Hin]]. subst. simpl in E.
+    apply N.eqb_eq in E. subst. auto.
+  - intros. exists (a, 0). split; [apply in_map_iff; eauto | simpl; apply N.eqb_refl].
+Qed.
+
+Lemma in_sys_new : forall cls d e, In e (sys_new cls d) -> snd e = 0 /\ In (fst e) (sys_missing cls d).
+Proof. unfold sys_new. intros. apply in_map_iff in H. destruct H as [x [Hx Hin]]. subst. auto. Qed.
+
+Lemma touched_in : forall d e, In e (d_store d) -> touched d (fst (fst e)) = true.
+Proof. unfold touched. intros. apply existsb_exists. exists e. split; auto. apply N.eqb_refl. Qed.
+
+Lemma valid_diffb_VS : forall s d, valid_diffb s d = true -> sys_guard s d = true -> VS s d.
+Proof.
+  unfold valid_diffb. intros s d H G. repeat (apply andb_true_iff in H; destruct H as [H ?]).
+  rewrite forallb_forall in H0, H1, H2, H3.
+  assert (Dep : forall e, In e (d_deploy d) -> is_sys (fst e) = false /\ get (s_class s) [fst e] = None).
+  { intros e Hin. apply H3 in Hin. apply andb_true_iff in Hin. destruct Hin as [A B].
+    apply negb_true_iff in A. apply negb_true_iff in B. apply present_false in B. auto. }
+  assert (Rep : forall e, In e (d_replace d) -> is_sys (fst e) = false /\ get (s_class s) [fst e] <> None).
+  { intros e Hin. apply H2 in Hin. apply andb_true_iff in Hin. destruct Hin as [A B].
+    apply negb_true_iff in A. apply present_iff in B. auto. }
   constructor.
-  - apply nodupk_NoDup1; auto.
-  - auto.
-  - intros. rewrite forallb_forall in H3. apply H3 in H8. destruct (get (s_class s) [fst e]); auto. discriminate.
-  - intros. rewrite forallb_forall in H2. apply H2 in H8. destruct (get (s_class s) [fst e]); auto; discriminate.
-  - intros. rewrite forallb_forall in H1. apply H1 in H8. unfold is_deployed in H8.
-    destruct (get (s_class s) [fst e]); [left; discriminate | right]. rewrite mem_map_fst in H8. auto.
-  - intros. rewrite forallb_forall in H0. apply H0 in H8. unfold is_deployed in H8.
-    destruct (get (s_class s) [fst (fst e)]); [left; discriminate | right]. rewrite mem_map_fst in H8. auto.
+  - constructor; cbn [with_sys d_deploy d_replace d_nonce d_store d_decl].
+    + apply nodupk_NoDup1; auto.
+    + auto.
+    + intros e Hin. apply in_app_or in Hin. destruct Hin as [Hin | Hin].
+      * apply in_sys_new in Hin. destruct Hin as [_ Hin]. apply in_sys_missing in Hin. tauto.
+      * apply Dep; auto.
+    + intros. apply Rep; auto.
+    + intros e Hin. apply H1 in Hin. apply andb_true_iff in Hin. destruct Hin as [_ Hin].
+      unfold is_deployed in Hin. destruct (get (s_class s) [fst e]); [left; discriminate | right].
+      rewrite mem_map_fst in Hin. rewrite inkeys_app, Hin. apply orb_true_r.
+    + intros e Hin. pose proof (H0 _ Hin) as Hv. apply orb_true_iff in Hv.
+      destruct (get (s_class s) [fst (fst e)]) eqn:E; [left; discriminate | right].
+      rewrite inkeys_app. destruct Hv as [Hs | Hd].
+      * replace (inkeys (sys_new (s_class s) d) (fst (fst e))) with true; auto. symmetry.
+        apply inkeys_sys_new. apply in_sys_missing. split; auto. split; auto. apply touched_in; auto.
+      * unfold is_deployed in Hd. rewrite E in Hd. rewrite mem_map_fst in Hd. rewrite Hd. apply orb_true_r.
+  - intros. apply Dep; auto.
+  - intros. apply Rep; auto.
+  - intros e Hin. apply H1 in Hin. apply andb_true_iff in Hin. destruct Hin as [A _]. apply negb_true_iff in A. auto.
+  - intros a Ha Ht. unfold sys_guard in G. rewrite forallb_forall in G. apply is_sys_in in Ha.
+    apply G in Ha. rewrite Ht in Ha. simpl in Ha. auto.
 Qed.
